@@ -147,7 +147,10 @@ class BufferedReader(io.RawIOBase):
         return b[:n]
 
     def readall(self):
-        self.reader.seek(self.pos)
+        if self.size is not None:
+            # stay inside the window [offset, offset + size)
+            return self.read(self.size - self.pos)
+        self.reader.seek(self.pos + self.offset)
         rv = self.reader.read()
         self.pos += len(rv)
         return rv
